@@ -1,6 +1,9 @@
 (* Component `lowerbool`: semantic correctness of the model of bool_expr_branch
-   (LowerBoolModel.lower_branch) on the Turing-jump machine, for ALL expression trees of F_model,
-   every word size w >= 2, arbitrary surrounding code.
+   (LowerBoolModel.lower_branch) on the Turing-jump machine, for ALL expression trees (unbounded
+   depth) over comparisons of safe operands, bool literals, bool locals, not, and, or
+   (F_proved = what `vars_ok` accepts; arithmetic comparison operands are in the model and in the
+   textual correspondence only), every word size w >= 2, arbitrary surrounding code, arbitrary
+   straight-line continuations with or without a final goto.
 
    Structure
      A  placement of abstract lines in an abstract code memory (`placed`), continuations
@@ -16,6 +19,19 @@ From HidV Require Import Machine Halts WordLemmas MemLemmas GenTables OpTables I
 Import ListNotations.
 Open Scope Z_scope.
 Ltac Zify.zify_post_hook ::= Z.to_euclidean_division_equations.
+
+(* the safe-operand instance of get_expr_value / pop_value: a literal needs no code, a local is
+   read by `lwso [r], [fp], -off` *)
+Definition fetch (E : env) (r : reg) (o : iopd) : list aline * sym :=
+  match o with
+  | OLit z => ([], SLit z)
+  | OVar i => ([AInstr (ALwso r (SReg RFp) (SLit (- int_off E i)))], SReg r)
+  | OArith _ _ _ => ([], SLit 0)
+  end.
+(* with safe operands nothing is kept: right operand into r1, then left operand into r0 *)
+Lemma compare_operands_safe E a b : is_safe a = true -> is_safe b = true ->
+  compare_operands E a b = (fst (fetch E R1 b) ++ fst (fetch E R0 a), snd (fetch E R0 a), snd (fetch E R1 b)).
+Proof. destruct a, b; try discriminate; reflexivity. Qed.
 
 (* ================================================================================= *)
 (* A  sizes, placement, continuations                                                 *)
@@ -134,6 +150,30 @@ Proof. unfold between. intros H1 H2 H. specialize (H1 (fst x)). specialize (H2 (
 
 Ltac defl := repeat progress (rewrite ?deflabels_app; cbn [deflabels app]).
 
+Lemma pop_value_nolabels r b : deflabels (fst (pop_value r b)) = [].
+Proof. destruct b; reflexivity. Qed.
+Lemma eval_opd_nolabels E o : forall top r keep, deflabels (fst (eval_opd E top r o keep)) = [].
+Proof.
+  induction o as [z|i|op x IHx y IHy]; intros top r keep; try reflexivity.
+  cbn [eval_opd].
+  specialize (IHx top R0 (negb (is_safe y))). destruct (eval_opd E top R0 x (negb (is_safe y))) as [c1 lb].
+  specialize (IHy (top_after top lb) R1 false). destruct (eval_opd E (top_after top lb) R1 y false) as [c2 rb].
+  pose proof (pop_value_nolabels R1 rb) as P1. destruct (pop_value R1 rb) as [c2' rhs].
+  pose proof (pop_value_nolabels R0 lb) as P0. destruct (pop_value R0 lb) as [c3 lhs].
+  cbn [fst] in *. destruct keep; cbn [fst]; defl; rewrite ?IHx, ?IHy, ?P1, ?P0; reflexivity.
+Qed.
+Lemma compare_operands_nolabels E a b : deflabels (fst (fst (compare_operands E a b))) = [].
+Proof.
+  unfold compare_operands.
+  pose proof (eval_opd_nolabels E a (stack_top E) R0 (negb (is_safe b))) as H1.
+  destruct (eval_opd E (stack_top E) R0 a (negb (is_safe b))) as [c1 lb].
+  pose proof (eval_opd_nolabels E b (top_after (stack_top E) lb) R1 false) as H2.
+  destruct (eval_opd E (top_after (stack_top E) lb) R1 b false) as [c2 rb].
+  pose proof (pop_value_nolabels R1 rb) as P1. destruct (pop_value R1 rb) as [c2' rhs].
+  pose proof (pop_value_nolabels R0 lb) as P0. destruct (pop_value R0 lb) as [c3 lhs].
+  cbn [fst] in *. defl. rewrite H1, H2, P1, P0. reflexivity.
+Qed.
+
 (* what lower_branch defines: fresh labels only, each once *)
 Lemma lower_branch_defs E e : forall kt kf st C st',
   lower_branch E e kt kf st = (C, st') ->
@@ -166,13 +206,12 @@ Proof.
     destruct (add_label LCompareIsTrue st) as [it st1] eqn:A1. cbn [fst snd] in M1, B1.
     pose proof (add_label_le LCompareEnd st1) as M2. pose proof (add_label_between LCompareEnd st1) as B2.
     destruct (add_label LCompareEnd st1) as [be st2] eqn:A2. cbn [fst snd] in M2, B2.
-    destruct (fetch E R1 b) as [cr right] eqn:Fb. destruct (fetch E R0 a) as [cl left] eqn:Fa.
+    pose proof (compare_operands_nolabels E a b) as Dc.
+    destruct (compare_operands E a b) as [[co lhs] rhs]. cbn [fst] in Dc.
     inversion L; subst C st'; clear L.
     assert (Nm : it <> be) by (inversion A1; inversion A2; subst; intro X; inversion X).
-    assert (Dr : deflabels cr = []) by (destruct b; inversion Fb; reflexivity).
-    assert (Dl : deflabels cl = []) by (destruct a; inversion Fa; reflexivity).
     split; [eapply st_le_trans; eauto|].
-    defl. rewrite Nt, Nf, Dr, Dl. cbn [app].
+    defl. rewrite Nt, Nf, Dc. cbn [app].
     assert (Bi : between st st2 it) by (eapply between_weaken; [| |exact B1]; [intros n; lia | exact M2]).
     assert (Bb : between st st2 be) by (eapply between_weaken; [| |exact B2]; [exact M1 | intros n; lia]).
     destruct (ends_goto kf); cbn [deflabels app goto]; split.
@@ -357,8 +396,12 @@ Definition FP (m : mem) : Z := lw m fp.
    literal is itself; a bool local is true iff its byte is non-zero; comparisons are signed;
    and/or/not are the boolean connectives (short-circuiting is invisible in the VALUE because
    operands have no side effects; it is visible in `run_mem` below). *)
-Definition sval (m : mem) (o : iopd) : Z :=
-  match o with OLit z => z | OVar i => sgn (lw m (FP m - int_off E i)) end.
+Fixpoint sval (m : mem) (o : iopd) : Z :=
+  match o with
+  | OLit z => z
+  | OVar i => sgn (lw m (FP m - int_off E i))
+  | OArith op x y => sgn (wrap (arith_sem op (sval m x) (sval m y)))     (* two's-complement wrap *)
+  end.
 Definition bval (m : mem) (j : nat) : Z := lb m (FP m - bool_off E j).
 Fixpoint beval (m : mem) (e : bexpr) : bool :=
   match e with
@@ -374,7 +417,7 @@ Fixpoint beval (m : mem) (e : bexpr) : bool :=
    that short-circuit evaluation reaches, left to right (right operand into r1, then left
    operand into r0; a bool local into r1).  Atoms after the deciding one leave no trace. *)
 Definition fetch_mem (ra : Z) (o : iopd) (m : mem) : mem :=
-  match o with OLit _ => m | OVar i => sw m ra (lw m (FP m - int_off E i)) end.
+  match o with OVar i => sw m ra (lw m (FP m - int_off E i)) | _ => m end.
 Fixpoint run_mem (e : bexpr) (m : mem) : mem :=
   match e with
   | BLit _ => m
@@ -401,6 +444,15 @@ Definition atom_mem (m : mem) (x : atom) : mem :=
   | AtVar j => sw m r1 (bval m j)
   end.
 
+(* short-circuiting, in the terms of the theorems below: when the left operand decides, the right
+   operand contributes no atom to the trace and no write to the memory *)
+Lemma short_circuit_and m e1 e2 : beval m e1 = false ->
+  trace m (BAnd e1 e2) = trace m e1 /\ run_mem (BAnd e1 e2) m = run_mem e1 m.
+Proof. intros H. cbn [trace run_mem]. rewrite H. now rewrite app_nil_r. Qed.
+Lemma short_circuit_or m e1 e2 : beval m e1 = true ->
+  trace m (BOr e1 e2) = trace m e1 /\ run_mem (BOr e1 e2) m = run_mem e1 m.
+Proof. intros H. cbn [trace run_mem]. rewrite H. now rewrite app_nil_r. Qed.
+
 (* well-formed frame *)
 Record layout_ok (m : mem) : Prop := {
   lo_wf : wf_mem m;
@@ -415,8 +467,16 @@ Definition dj (a n : Z) : Prop := (a + n <= r0 \/ r0 + w <= a) /\ (a + n <= r1 \
 (* a local of n bytes at frame offset off: in bounds, addressable as a signed offset, not a register *)
 Definition slot_ok (m : mem) (off n : Z) : Prop :=
   0 < off <= W / 2 /\ 0 <= FP m - off /\ inb m (FP m - off) n = true /\ dj (FP m - off) n.
+(* F_proved: the operands the theorems cover are the SAFE ones.  Arithmetic operands are in the
+   model and in the textual correspondence, not (yet) in the theorems: opd_ok excludes them. *)
 Definition opd_ok (m : mem) (o : iopd) : Prop :=
-  match o with OLit z => - (W / 2) <= z < W / 2 | OVar i => slot_ok m (int_off E i) w end.
+  match o with
+  | OLit z => - (W / 2) <= z < W / 2
+  | OVar i => slot_ok m (int_off E i) w
+  | OArith _ _ _ => False
+  end.
+Lemma opd_ok_safe m o : opd_ok m o -> is_safe o = true.
+Proof. destruct o; cbn [opd_ok is_safe]; [reflexivity | reflexivity | intros []]. Qed.
 Fixpoint vars_ok (m : mem) (e : bexpr) : Prop :=
   match e with
   | BLit _ => True
@@ -473,7 +533,7 @@ Proof.
   intros L A [H1 [H2 [H3 H4]]]. unfold slot_ok. rewrite (FP_agree m m' L A), (agree_inb m m' _ _ A). tauto.
 Qed.
 Lemma opd_ok_agree m m' o : layout_ok m -> agree m m' -> opd_ok m o -> opd_ok m' o.
-Proof. intros L A. destruct o; cbn [opd_ok]; [auto | apply slot_ok_agree; assumption]. Qed.
+Proof. intros L A. destruct o; cbn [opd_ok]; [auto | apply slot_ok_agree; assumption | auto]. Qed.
 Lemma vars_ok_agree m m' e : layout_ok m -> agree m m' -> vars_ok m e -> vars_ok m' e.
 Proof.
   intros L A. induction e as [b|j|op a b|e IH|e1 IH1 e2 IH2|e1 IH1 e2 IH2]; cbn [vars_ok]; try tauto.
@@ -482,7 +542,7 @@ Proof.
 Qed.
 Lemma sval_agree m m' o : layout_ok m -> agree m m' -> opd_ok m o -> sval m' o = sval m o.
 Proof.
-  intros L A. destruct o as [z|i]; cbn [sval opd_ok]; [reflexivity|]. intros [H1 [H2 [H3 H4]]].
+  intros L A. destruct o as [z|i|op x y]; cbn [sval opd_ok]; [reflexivity| |intros []]. intros [H1 [H2 [H3 H4]]].
   rewrite (FP_agree m m' L A). f_equal. apply agree_lw; assumption.
 Qed.
 Lemma bval_agree m m' j : layout_ok m -> agree m m' -> slot_ok m (bool_off E j) 1 -> bval m' j = bval m j.
@@ -502,7 +562,7 @@ Qed.
 
 Lemma fetch_mem_agree m ra o : layout_ok m -> ra = r0 \/ ra = r1 -> agree m (fetch_mem ra o m).
 Proof.
-  intros L Hr. destruct o as [z|i]; cbn [fetch_mem]; [apply agree_refl|].
+  intros L Hr. destruct o as [z|i|op x y]; cbn [fetch_mem]; [apply agree_refl| |apply agree_refl].
   apply agree_sw; [destruct L, Hr; subst; assumption | exact Hr].
 Qed.
 Lemma run_mem_agree e : forall m, layout_ok m -> vars_ok m e -> agree m (run_mem e m).
@@ -567,11 +627,18 @@ Notation rs := (res_sym R lab).
 
 (* word value of an operand (what the conditional halt compares) *)
 Definition wval (m : mem) (o : iopd) : Z :=
-  match o with OLit z => wrap z | OVar i => lw m (FP m - int_off E i) end.
+  match o with
+  | OLit z => wrap z
+  | OVar i => lw m (FP m - int_off E i)
+  | OArith op x y => wrap (arith_sem op (sval m x) (sval m y))
+  end.
 Lemma sgn_wval m o : opd_ok m o -> sgn (wval m o) = sval m o.
-Proof. destruct o as [z|i]; cbn [opd_ok wval sval]; [apply (sgn_wrap_small w Hw1) | reflexivity]. Qed.
+Proof. destruct o as [z|i|op x y]; cbn [opd_ok wval sval]; [apply (sgn_wrap_small w Hw1) | reflexivity | intros []]. Qed.
 Lemma wval_range m o : wf_mem m -> inrange w (wval m o).
-Proof. intros Wf. destruct o as [z|i]; cbn [wval]; [apply wrap_range; exact Hw1 | apply (lw_range w Hw1); exact Wf]. Qed.
+Proof.
+  intros Wf. destruct o as [z|i|op x y]; cbn [wval];
+    [apply wrap_range; exact Hw1 | apply (lw_range w Hw1); exact Wf | apply wrap_range; exact Hw1].
+Qed.
 
 Lemma oval_lab m l : oval m (Imm (lab l)) = Some (lab l).
 Proof. rewrite oval_imm. f_equal. apply (wrap_small w). exact (lab_range l). Qed.
@@ -606,6 +673,10 @@ Proof.
     unfold nxtm; cbn [pc mm]. intros H; inversion H; reflexivity.
   - (* lbso *) destruct (oval m (rs b)) as [x|]; [|discriminate]. destruct (oval m (rs o)) as [y|]; [|discriminate].
     unfold load; cbn [mm]. destruct (inb m (sgn x + sgn y) 1); [|discriminate].
+    unfold setdest; cbn [mm]. destruct (inb m (regaddr R d) w); [|discriminate].
+    unfold nxtm; cbn [pc mm]. intros H; inversion H; reflexivity.
+  - (* arith *) destruct (oval m (rs a)) as [x|]; [|discriminate]. destruct (oval m (rs b)) as [y|]; [|discriminate].
+    destruct (arith w op x y) as [r|]; [|discriminate].
     unfold setdest; cbn [mm]. destruct (inb m (regaddr R d) w); [|discriminate].
     unfold nxtm; cbn [pc mm]. intros H; inversion H; reflexivity.
   - (* mov *) destruct (oval m (rs v)) as [x|]; [|discriminate].
@@ -652,7 +723,8 @@ Lemma fetch_runs rg o c s p m : rg = R0 \/ rg = R1 -> fetch E rg o = (c, s) -> p
   runs (mk p m) [] (mk (p + size c) (fetch_mem (regaddr R rg) o m)) /\
   oval (fetch_mem (regaddr R rg) o m) (rs s) = Some (wval m o).
 Proof.
-  intros Hr F P L O. destruct o as [z|i]; cbn [fetch] in F; inversion F; subst c s; clear F; cbn [fetch_mem wval size].
+  intros Hr F P L O. destruct o as [z|i|op x y]; [| |destruct O];
+    cbn [fetch] in F; inversion F; subst c s; clear F; cbn [fetch_mem wval size].
   - replace (p + 0) with p by lia. split; [apply runs_refl | apply oval_imm].
   - cbn [plc res_ins res_sym regaddr] in P. destruct P as [C _].
     cbn [opd_ok] in O. destruct O as [O1 [O2 [O3 O4]]].
@@ -671,13 +743,13 @@ Qed.
 Lemma oval_keep_right a b cr right m : fetch E R1 b = (cr, right) -> layout_ok m ->
   oval (fetch_mem r0 a m) (rs right) = oval m (rs right).
 Proof.
-  intros F L. destruct a as [z|i]; cbn [fetch_mem]; [reflexivity|].
-  destruct b as [z'|i']; cbn [fetch] in F; inversion F; subst; cbn [res_sym regaddr]; [reflexivity|].
+  intros F L. destruct a as [z|i|op x y]; cbn [fetch_mem]; [reflexivity| |reflexivity].
+  destruct b as [z'|i'|op' x' y']; cbn [fetch] in F; inversion F; subst; cbn [res_sym regaddr]; [reflexivity| |reflexivity].
   destruct L. apply (oval_st_sw_other w Hw); [assumption | assumption | lia].
 Qed.
 Lemma wval_agree m m' o : layout_ok m -> agree m m' -> opd_ok m o -> wval m' o = wval m o.
 Proof.
-  intros L A. destruct o as [z|i]; cbn [wval opd_ok]; [reflexivity|]. intros [H1 [H2 [H3 H4]]].
+  intros L A. destruct o as [z|i|op x y]; cbn [wval opd_ok]; [reflexivity| |intros []]. intros [H1 [H2 [H3 H4]]].
   rewrite (FP_agree m m' L A). apply agree_lw; assumption.
 Qed.
 
@@ -765,7 +837,10 @@ Proof.
   - (* BCmp *)
     cbn [lower_branch] in L.
     destruct (add_label LCompareIsTrue st) as [it st1]. destruct (add_label LCompareEnd st1) as [be st2].
+    cbn [vars_ok] in V. destruct V as [Va Vb].
+    rewrite (compare_operands_safe E a b (opd_ok_safe m a Va) (opd_ok_safe m b Vb)) in L.
     destruct (fetch E R1 b) as [cr right] eqn:Fb. destruct (fetch E R0 a) as [cl left] eqn:Fa.
+    cbn [fst snd] in L. rewrite <- app_assoc in L.
     inversion L; subst C st'; clear L.
     apply placed_app in P. destruct P as [Pcr P].
     apply placed_app in P. destruct P as [Pcl P].
@@ -775,7 +850,6 @@ Proof.
     cbn [app plc] in P. destruct P as [Lit [Cc' P]].
     apply placed_app in P. destruct P as [Pkt Pend].
     cbn [res_ins res_sym regaddr] in Cj, Cc, Cc'.
-    cbn [vars_ok] in V. destruct V as [Va Vb].
     cbn [run_mem beval] in Rs |- *.
     (* the two fetches *)
     destruct (fetch_runs R1 b cr right p m (or_intror eq_refl) Fb Pcr Lo Vb) as [Rb Ob].
@@ -1064,9 +1138,43 @@ Proof.
       apply (wrap_wrap w Hw1).
   - unfold m''. rewrite (lw_sw_same w Hw1) by exact Hr. exact Wv.
 Qed.
-(* keep = True (e.g. `bool p = e;`): the result byte is a reserved local at frame offset off *)
-Theorem value_lowering_keep_correct e off st B m :
-  let C := fst (value_lowering_keep E e off st) in
+End Top.
+
+(* the semantics does not look at the stack top *)
+Lemma sval_with_top w R E t m o : sval w R (with_top E t) m o = sval w R E m o.
+Proof. induction o as [z|i|op x IHx y IHy]; cbn [sval]; [reflexivity | reflexivity | now rewrite IHx, IHy]. Qed.
+Lemma beval_with_top w R E t m e : beval w R (with_top E t) m e = beval w R E m e.
+Proof.
+  induction e as [b|j|op a b|e IH|e1 IH1 e2 IH2|e1 IH1 e2 IH2]; cbn [beval];
+    rewrite ?sval_with_top, ?IH, ?IH1, ?IH2; reflexivity.
+Qed.
+Lemma run_mem_with_top w R E t e : forall m, run_mem w R (with_top E t) e m = run_mem w R E e m.
+Proof.
+  induction e as [b|j|op a b|e IH|e1 IH1 e2 IH2|e1 IH1 e2 IH2]; intros m; cbn [run_mem];
+    rewrite ?beval_with_top, ?IH, ?IH1, ?IH2; reflexivity.
+Qed.
+Lemma vars_ok_with_top w R E t m e : vars_ok w R E m e -> vars_ok w R (with_top E t) m e.
+Proof.
+  induction e as [b|j|op a b|e IH|e1 IH1 e2 IH2|e1 IH1 e2 IH2]; cbn [vars_ok]; try tauto.
+Qed.
+
+Section TopKeep.
+Variable w : Z.
+Hypothesis Hw : 2 <= w.
+Variable code : Z -> option instr.
+Variable cmem : mem.
+Variable R : regmap.
+Variable E : env.
+Variable ext : label -> Z.
+Hypothesis ext_range : forall x, 0 <= ext x < Machine.W w.
+Notation act := (Machine.act w code cmem).
+Notation runs := (HidV.Sphinx.Halts.runs act).
+
+(* keep = True (e.g. `bool p = e;`): the result byte is reserved on the frame, one byte above
+   the current stack top *)
+Theorem value_lowering_keep_correct e st B m :
+  let off := stack_top E + 1 in
+  let C := fst (value_lowering_keep E e st) in
   code_at code B (resolve R ext B C) ->
   0 <= B -> B + size C < Machine.W w ->
   layout_ok w R m -> vars_ok w R E m e ->
@@ -1075,19 +1183,20 @@ Theorem value_lowering_keep_correct e off st B m :
   let m'' := Machine.sb (run_mem w R E e m) (FP w R m - off) v in
   runs (mk B m) [] (mk (B + size C) m'') /\ lb m'' (FP w R m - off) = v.
 Proof.
-  intros C CA HB HS Lo V [S1 [S2 [S3 S4]]] v m''.
+  intros off C CA HB HS Lo V [S1 [S2 [S3 S4]]] v m''.
   assert (Hw1 : 1 <= w) by lia.
-  destruct (lowering_correct_gen e [ASbso (SReg RFp) (SLit (- off)) (SLit 1)] None
-              [ASbso (SReg RFp) (SLit (- off)) (SLit 0)] None st B m CA HB HS eq_refl eq_refl) as [A [_ Rn]]; try assumption;
-    try (intros L X; discriminate X).
+  set (E' := with_top E off).
+  destruct (lowering_correct_gen w Hw code cmem R E' ext ext_range e
+              [ASbso (SReg RFp) (SLit (- off)) (SLit 1)] None
+              [ASbso (SReg RFp) (SLit (- off)) (SLit 0)] None st B m CA HB HS eq_refl eq_refl) as [A [_ Rn]];
+    try assumption; try (intros L X; discriminate X); try (apply vars_ok_with_top; assumption).
+  unfold E' in A, Rn. rewrite beval_with_top, run_mem_with_top in Rn. rewrite run_mem_with_top in A.
   set (m' := run_mem w R E e m) in *.
   pose proof (layout_ok_agree w R Hw m m' Lo A) as Lo'.
   pose proof (FP_agree w R Hw m m' Lo A) as EF.
   assert (I' : inb m' (FP w R m - off) 1 = true) by (rewrite (agree_inb w R _ _ _ _ A); exact S3).
   assert (Ad : Machine.sgn w (FP w R m') + Machine.sgn w (Machine.wrap w (- off)) = FP w R m - off).
   { rewrite (frame_addr w R Hw m' off Lo' S1). now rewrite EF. }
-  assert (Wv : Machine.wrap w v = v).
-  { apply (wrap_small w). pose proof (W_ge w Hw1). unfold inrange, v. destruct (beval w R E m e); lia. }
   assert (W1 : Machine.wrap w 1 = 1) by (apply (wrap_small w); pose proof (W_ge w Hw1); unfold inrange; lia).
   assert (W0 : Machine.wrap w 0 = 0) by (apply (wrap_small w); pose proof (W_ge w Hw1); unfold inrange; lia).
   split.
@@ -1099,7 +1208,7 @@ Proof.
     + rewrite W0. reflexivity.
   - unfold m''. rewrite lb_sb_same. unfold v. destruct (beval w R E m e); reflexivity.
 Qed.
-End Top.
+End TopKeep.
 
 (* ================================================================================= *)
 (* F  satisfiability examples (w = 2, hidc's register layout, a 64-byte state section)  *)
